@@ -1007,7 +1007,9 @@ UPD_RECORDS = [
     ("statement ok", "flaky 1 boom {n}", ""),
     # a long statement with multi-byte characters throughout (whatever abbreviates it must cut at a
     # character boundary)
-    ("statement ok retry 2 backoff 0s", "flaky 1 boom " + "\u4e2d\u6587\u00e9x" * 200 + " {n}", ""),
+    # (a pad of 0..8 ASCII letters moves the character boundaries)
+    ("statement ok retry 2 backoff 0s", "flaky 1 boom {pad}" + "\u4e2d\u6587\u00e9x" * 200 + " {n}", ""),
+    ("statement ok retry 3 backoff 0s", "flaky 2 boom {pad}" + "\u00e9\u4e2d" * 300 + " {n}", ""),
     # result blocks whose LAST line consists of white space only (a blank value): when such a record ends
     # a file, the trailing-newline clean-up must not take that line for padding
     ("query T", "blankrow {n}", "----\nv\n \n"),
@@ -1050,7 +1052,8 @@ def gen_cli_tree(rnd, multi=0):
                 hdr, sql, block = rnd.choice(pool)
                 ctr[0] += 1
                 n, m, cnt = ctr[0] * 10 + 1, ctr[0] * 10 + 2, rnd.randint(0, 4)
-                q = sql.format(n=n, m=m, c=cnt) + f" #{ctr[0]}" if not sql.startswith("rows") else sql.format(n=n, m=m, c=cnt)
+                pad = "a" * rnd.randint(0, 8)
+                q = sql.format(n=n, m=m, c=cnt, pad=pad) + f" #{ctr[0]}" if not sql.startswith("rows") else sql.format(n=n, m=m, c=cnt)
                 if q.startswith("rows"):
                     q = q  # `rows <c>`: may repeat; the answer depends on the text only
                 sqls.append(q)
@@ -1072,7 +1075,15 @@ def gen_cli_tree(rnd, multi=0):
     for nm in names:
         if nm == "inc/a.inc":
             continue
-        root += f"include {nm}\n\n" + records(rnd.randint(1 if multi else 0, 2))
+        root += f"include {nm}\n\n"
+        if rnd.random() < 0.3:
+            contents[nm] = contents[nm] + "control sortmode rowsort\n\n"
+            ctr[0] += 1
+            q = f"desc 3 {ctr[0] * 10 + 1} #{ctr[0]}"
+            sqls.append(q)
+            # passes only while the sort mode set inside the included file is still in force
+            root += f"query T\n{q}\n----\nr0\nr1\nr2\n\n"
+        root += records(rnd.randint(1 if multi else 0, 2))
     # endings: the CLI's own copy of the trailing-newline loop
     def ending(t):
         c = rnd.randint(0, 5)
@@ -1105,7 +1116,7 @@ def gen_cli_tree(rnd, multi=0):
         # ... directly followed by a record that is sensitive to such state
         hdr, sql, block = rnd.choice(UPD_RECORDS[-10:-7] + SUBST_RECORDS + [("query T", "rows 4", "----\nr0\nr1\nr2\nr3\n")])
         ctr[0] += 1
-        q = sql.format(n=ctr[0] * 10 + 1, m=ctr[0] * 10 + 2, c=4)
+        q = sql.format(n=ctr[0] * 10 + 1, m=ctr[0] * 10 + 2, c=4, pad="")
         sqls.append(q)
         body += f"{hdr}\n{q}\n{block.format(n=ctr[0] * 10 + 1, m=ctr[0] * 10 + 2)}\n"
         body += records(rnd.randint(0, 3))
@@ -1269,6 +1280,11 @@ def multi_case(mode, tree, roots, sqls, labels=()):
                 e = unhx(a.split(" ")[1])
                 if e not in errs:
                     errs.append(e)
+    # an include shared by several roots is read again after an earlier root's --override has written
+    # new inline patterns into it (the escaped error text; for these plain texts escaping changes nothing)
+    for e in errs:
+        if re.fullmatch(r"[A-Za-z0-9 ]+", e) and e.strip() == e and "  " not in e and e not in cands:
+            cands.append(e)
     valid, matches = [], []
     for cand in cands:
         try:
